@@ -391,20 +391,60 @@ def leg_descriptors(ns, res, spec):
         shutil.rmtree(d, ignore_errors=True)
 
 
+def leg_real_pipe(ns, res, spec):
+    """The command line writing into a real OS pipe whose reader goes away after N bytes (what `| head` does)."""
+    import subprocess
+    d = tempfile.mkdtemp(prefix='rv-c15-')
+    try:
+        inp = os.path.join(d, 'in_1.csv')
+        with open(inp, 'w') as f:
+            for i in range(30000):
+                f.write('%d,row%d,%s\n' % (i, i % 7, 'x' * 30))
+        e = dict(os.environ, PYTHONPATH=env.PY_PKG_DIR, PYTHONDONTWRITEBYTECODE='1', HOME=d, PYTHONWARNINGS='ignore')
+        queries = ['select a1, a2', 'select a1, a2 order by a2 desc', 'select distinct count a2', 'update a3 = a2', 'select a1, UNNEST([a2, a3])']
+        for q in queries[:spec['n']]:
+            base = [sys.executable, '-W', 'ignore', '-m', 'rbql', '--input', inp, '--delim', ',', '--policy', 'quoted', '--query', q]
+            full = subprocess.run(base, env=e, cwd=d, stdout=subprocess.PIPE, stderr=subprocess.PIPE, timeout=300)
+            if full.returncode != 0:
+                res.violation('py:cli-fault-free-run-failed', '[cli] %r exit %d: %r' % (q, full.returncode, full.stderr[-200:]), {'leg': 'realpipe', 'query_text': q})
+                continue
+            for nbytes in spec['cuts']:
+                p = subprocess.Popen(base, env=e, cwd=d, stdout=subprocess.PIPE, stderr=subprocess.PIPE)
+                got = p.stdout.read(nbytes) if nbytes else b''
+                p.stdout.close()           # the consumer goes away
+                err = p.stderr.read()
+                rc = p.wait(timeout=300)
+                res.evaluations += 1
+                res.count('real_pipe_runs')
+                res.distinct_disjoint += 1
+                case = {'leg': 'realpipe', 'query_text': q, 'bytes_read_before_close': nbytes}
+                if rc != 0:
+                    res.violation('py:cli-broken-pipe-nonzero-exit', '[cli] %r with the consumer closing after %d bytes: exit %d, stderr %r' % (q, nbytes, rc, err[-300:]), case)
+                elif any(t in err for t in (b'Traceback', b'BrokenPipe', b'Exception ignored', b'Error [')):
+                    res.violation('py:cli-broken-pipe-noise-on-stderr', '[cli] %r with the consumer closing after %d bytes: stderr %r' % (q, nbytes, err[-300:]), case)
+                if not full.stdout.startswith(got):
+                    res.violation('py:cli-pipe-output-not-a-prefix', '[cli] %r: the %d bytes delivered before the close are not a prefix of the full output' % (q, len(got)), case)
+        res.sample({'leg': 'realpipe', 'queries': queries[:spec['n']], 'cuts': spec['cuts'], 'input_rows': 30000})
+    finally:
+        shutil.rmtree(d, ignore_errors=True)
+
+
 def plan(tier, seed):
-    return [{'kind': 'pipe'}, {'kind': 'protocol'}, {'kind': 'bytes'}, {'kind': 'descriptors', 'n': 2 if tier == 'quick' else 20}]
+    specs = [{'kind': 'pipe'}, {'kind': 'protocol'}, {'kind': 'bytes'}, {'kind': 'descriptors', 'n': 2 if tier == 'quick' else 20}]
+    specs.append({'kind': 'realpipe', 'n': 3 if tier == 'quick' else 5, 'cuts': [0, 10, 70000] if tier == 'quick' else [0, 1, 10, 4096, 65536, 70000, 300000]})
+    return specs
 
 
 def run_shard(spec, res):
     ns = env.import_rbql()
-    {'pipe': leg_broken_pipe, 'protocol': leg_writer_protocol, 'bytes': leg_bad_bytes, 'descriptors': leg_descriptors}[spec['kind']](ns, res, spec)
+    {'pipe': leg_broken_pipe, 'protocol': leg_writer_protocol, 'bytes': leg_bad_bytes, 'descriptors': leg_descriptors, 'realpipe': leg_real_pipe}[spec['kind']](ns, res, spec)
 
 
 def summarize(tier, seed, m):
     return {
-        'rule': 'fault enumeration: for each of %d query shapes (streaming, WHERE, header, UPDATE, ORDER BY, TOP, GROUP BY, DISTINCT, DISTINCT COUNT, UNNEST, multi-match JOIN, LEFT JOIN star, None output) the output stream raises BrokenPipeError at every write index k in 1..writes+1 (text sink and raw byte sink behind the writer\'s TextIOWrapper; large outputs sampled), and a user writer returns False at every k; an invalid UTF-8 sequence at every offset x 7 sequences x 5 chunk sizes; %d descriptor scenarios (success, parse / syntax / runtime / IO error, missing input, missing join table) x header flag with every file object opened by the CSV / sqlite front-ends tracked. distinct_nontrivial counts enumerated fault points.' % (len(SHAPES), len(DESCRIPTOR_SCENARIOS)),
+        'rule': 'fault enumeration: for each of %d query shapes (streaming, WHERE, header, UPDATE, ORDER BY, TOP, GROUP BY, DISTINCT, DISTINCT COUNT, UNNEST, multi-match JOIN, LEFT JOIN star, None output) the output stream raises BrokenPipeError at every write index k in 1..writes+1 (text sink and raw byte sink behind the writer\'s TextIOWrapper; large outputs sampled), and a user writer returns False at every k; an invalid UTF-8 sequence at every offset x 7 sequences x 5 chunk sizes; %d descriptor scenarios (success, parse / syntax / runtime / IO error, missing input, missing join table) x header flag with every file object opened by the CSV / sqlite front-ends tracked; the command line writing 30000 rows into a real OS pipe whose reader closes after N bytes (exit status 0, silent stderr, delivered bytes a prefix). distinct_nontrivial counts enumerated fault points.' % (len(SHAPES), len(DESCRIPTOR_SCENARIOS)),
         'exhaustive': True,
-        'required': ['broken_pipe_runs', 'broken_pipe:text', 'broken_pipe:bytes', 'faults_triggered', 'writer_protocol_runs', 'bad_byte_runs', 'bad_byte_big_runs', 'records_delivered_before_decode_error', 'descriptor_runs', 'files_tracked', 'descriptor_runs_sqlite'],
+        'required': ['broken_pipe_runs', 'broken_pipe:text', 'broken_pipe:bytes', 'faults_triggered', 'writer_protocol_runs', 'bad_byte_runs', 'bad_byte_big_runs', 'records_delivered_before_decode_error', 'descriptor_runs', 'files_tracked', 'descriptor_runs_sqlite', 'real_pipe_runs'],
         'assumptions': ['"promptly": no further stream write and at most one further input read after the pipe broke', 'finish being (not) called on failing runs is not demanded'],
     }
 
